@@ -35,6 +35,10 @@ import GlmVerif.Props.C02.T_col_get
 import GlmVerif.Props.C02.T_col_set
 import GlmVerif.Props.C02.T_ctor_diag
 import GlmVerif.Props.C02.T_conv
+import GlmVerif.Props.C02.T_itranspose
+import GlmVerif.Props.C02.T_iouter
+import GlmVerif.Props.C02.T_icompmult
+import GlmVerif.Props.C02.T_imulmv
 /-! every family table of C02 holds for the model generated from the current /repo -/
 namespace Glm.Props.C02
 open Glm Glm.Spec.C02 Glm.Gen.C02
@@ -75,5 +79,9 @@ theorem all_ok : ∀ f ∈ families, f.ok lookup = true := by
     (Family.ok_congr f_col_get (fun ks => by rw [show f_col_get.unit = "col_get" from rfl, lookup_col_get])).trans col_get_ok,
     (Family.ok_congr f_col_set (fun ks => by rw [show f_col_set.unit = "col_set" from rfl, lookup_col_set])).trans col_set_ok,
     (Family.ok_congr f_ctor_diag (fun ks => by rw [show f_ctor_diag.unit = "ctor_diag" from rfl, lookup_ctor_diag])).trans ctor_diag_ok,
-    (Family.ok_congr f_conv (fun ks => by rw [show f_conv.unit = "conv" from rfl, lookup_conv])).trans conv_ok⟩
+    (Family.ok_congr f_conv (fun ks => by rw [show f_conv.unit = "conv" from rfl, lookup_conv])).trans conv_ok,
+    (Family.ok_congr f_itranspose (fun ks => by rw [show f_itranspose.unit = "itranspose" from rfl, lookup_itranspose])).trans itranspose_ok,
+    (Family.ok_congr f_iouter (fun ks => by rw [show f_iouter.unit = "iouter" from rfl, lookup_iouter])).trans iouter_ok,
+    (Family.ok_congr f_icompmult (fun ks => by rw [show f_icompmult.unit = "icompmult" from rfl, lookup_icompmult])).trans icompmult_ok,
+    (Family.ok_congr f_imulmv (fun ks => by rw [show f_imulmv.unit = "imulmv" from rfl, lookup_imulmv])).trans imulmv_ok⟩
 end Glm.Props.C02
